@@ -246,7 +246,9 @@ def run(chk):
                     names = {n.id for n in ast.walk(ast.parse(text, mode="eval")) if isinstance(n, ast.Name)}
                 except SyntaxError:
                     return False
-                return any(any(table in norm.raw(d) for d in defs.def_nodes(nm)) for nm in names)
+                def src(d):
+                    return d.iter if isinstance(d, (ast.For, ast.AsyncFor)) else d.value if isinstance(d, (ast.Assign, ast.AnnAssign, ast.NamedExpr)) and d.value is not None else None
+                return any(any(src(d) is not None and table in norm.raw(src(d)) for d in defs.def_nodes(nm)) for nm in names)
             lits = [l for cl_ in PC.pc(st, stop=inner, raw=True) for l in cl_] if inner is not None else []
             foreign = [l.text for l in lits if not about_table(l.text)]
             if inner is None or "morsel" in norm.raw(inner.iter).split(".")[0] or foreign:
